@@ -5,6 +5,8 @@ import (
 	"net"
 	"time"
 
+	"github.com/wmnsk/go-pfcp/ie"
+
 	"github.com/google/gopacket"
 	"github.com/google/gopacket/layers"
 )
@@ -113,7 +115,16 @@ func scenarioC14(r *Run) {
 				known = append(known, f)
 			}
 		}
-		res := p.Modify(s, &ModSpec{UpdateFAR: m.UpdateFAR, CreateFAR: m.CreateFAR, Tag: m.Tag})
+		rejectLater := r.Ch.Choose(5, "reject-later") == 1
+		var extra []*ie.IE
+		if rejectLater {
+			// an Update QER without QER ID: the request is rejected after the FARs
+			// were parsed and before anything is written to the datapath
+			extra = []*ie.IE{ie.NewUpdateQER(ie.NewQFI(5))}
+			r.Skel("rejected-after-far-loop")
+			r.Fault("modification-rejected-after-far-update")
+		}
+		res := p.Modify(s, &ModSpec{UpdateFAR: m.UpdateFAR, CreateFAR: m.CreateFAR, Extra: extra, Tag: m.Tag})
 		r.Op("modify cp=%d %s -> accepted=%v", s.CPSEID, m.Describe(), res.Accepted)
 		if res.Accepted {
 			r.Accepted++
